@@ -139,9 +139,48 @@ func runC11(c *engine.Ctx) {
 	c.Rule("R2", "the pool count stored in the control and the pool channel capacity use the login's pool_count only when it is within 0..MaxPoolCount, the clamp values otherwise")
 	if nc := fn(c, "server.NewControl"); nc != nil {
 		n := 0
-		bounded := func(st *engine.PathState, v ssa.Value) string {
+		// srcOf: provenance of a value, with parameters of a clamp helper mapped to the caller's arguments
+		type env map[*ssa.Parameter]ssa.Value
+		var srcOf func(v ssa.Value, e env) *engine.Sources
+		srcOf = func(v ssa.Value, e env) *engine.Sources {
+			s := engine.Provenance(v, engine.ProvOpts{})
+			for pr := range s.Params {
+				if a, ok := e[pr]; ok {
+					as := engine.Provenance(a, engine.ProvOpts{})
+					for k := range as.Fields {
+						s.Fields[k] = true
+					}
+				}
+			}
+			return s
+		}
+		var boundedIn func(st *engine.PathState, v ssa.Value, e env, depth int) string
+		boundedIn = func(st *engine.PathState, v ssa.Value, e env, depth int) string {
 			v = st.Resolve(v)
-			src := engine.Provenance(v, engine.ProvOpts{})
+			// a clamp helper: every return path of the helper must yield a bounded value
+			if call, idx := engine.ResultOfCall(engine.Unwrap(v)); call != nil && idx <= 0 && depth < 2 {
+				if cf := engine.CalleeFn(call); cf != nil && cf.Blocks != nil && cf.Pkg != nil && engine.IsRepoPkg(cf.Pkg.Pkg.Path()) {
+					ne := env{}
+					for i, pr := range cf.Params {
+						if i < len(call.Call.Args) {
+							ne[pr] = call.Call.Args[i]
+						}
+					}
+					q := &engine.PathQuery{Fn: cf, Sink: engine.IsReturn}
+					states, err := q.Run()
+					if err != nil || len(states) == 0 {
+						return "cannot analyse clamp helper " + cf.Name()
+					}
+					for _, hs := range states {
+						r := hs.Sink.(*ssa.Return)
+						if why := boundedIn(hs, r.Results[0], ne, depth+1); why != "" {
+							return why + " (in helper " + cf.Name() + ")"
+						}
+					}
+					return ""
+				}
+			}
+			src := srcOf(v, e)
 			if !src.HasField(loginPC) {
 				return "" // a clamp value (MaxPoolCount or a constant)
 			}
@@ -164,7 +203,7 @@ func runC11(c *engine.Ctx) {
 					}
 					continue
 				}
-				ys := engine.Provenance(y, engine.ProvOpts{})
+				ys := srcOf(y, e)
 				if ys.HasField(maxF) && (op == token.LEQ || op == token.LSS) {
 					up = true
 				}
@@ -177,6 +216,7 @@ func runC11(c *engine.Ctx) {
 			}
 			return ""
 		}
+		bounded := func(st *engine.PathState, v ssa.Value) string { return boundedIn(st, v, env{}, 0) }
 		engine.ForEachInstr(nc, func(in ssa.Instruction) {
 			switch x := in.(type) {
 			case *ssa.Store:
@@ -371,7 +411,7 @@ func runC11(c *engine.Ctx) {
 					continue
 				}
 				for _, sv := range nameStores(al, nameF) {
-					if s := engine.Provenance(sv, engine.ProvOpts{}); s.HasCall(getName) {
+					if s := engine.Provenance(sv, engine.ProvOpts{}); s.HasCall(getName) || s.HasField(p.Field("server/proxy", "BaseProxy", "name")) {
 						okName = true
 					}
 				}
